@@ -56,3 +56,23 @@ pub(crate) fn sched_point() -> SchedPoint {
 /// `mod kalman` is private inside `algorithm`; re-export its probe so harness code can
 /// name it as `crate::algorithm::verif_probe::kalman_probe::<group>::…`.
 pub(crate) use super::kalman::verif_probe as kalman_probe;
+
+/// Run `f` while the calling thread holds the wrapper's `used_sources` mutex (what an
+/// observer calling `synchronization_state()` holds for an instant). Used by C37 to
+/// enumerate the schedule "the loop publishes while an observer holds the lock".
+pub(crate) fn with_used_sources_locked<T: super::InternalTimeSyncController, R>(
+    wrapper: &super::TimeSyncControllerWrapper<T>,
+    f: impl FnOnce() -> R,
+) -> R {
+    let _guard = wrapper.used_sources.lock().unwrap();
+    f()
+}
+
+/// Same for the published time snapshot mutex.
+pub(crate) fn with_snapshot_locked<T: super::InternalTimeSyncController, R>(
+    wrapper: &super::TimeSyncControllerWrapper<T>,
+    f: impl FnOnce() -> R,
+) -> R {
+    let _guard = wrapper.snapshot.lock().unwrap();
+    f()
+}
